@@ -4,7 +4,7 @@
    Transcribed from src/adf/ADF_internals.c (line numbers of /repo def473d; the routines are found by name):
      statics  rd_block_buffer, last_rd_block, last_rd_file, num_in_rd_block,
               wr_block_buffer, last_wr_block, last_wr_file, flush_wr_block          (269-276)
-     ADFI_read_file (6228-6321), ADFI_write_file (8011-8150), ADFI_flush_buffers (4685-4718),
+     ADFI_read_file, ADFI_write_file, ADFI_flush_buffers (as of /repo ab35c99, found by name),
      ADFI_fseek_file's in_use test (4746-4749), the buffer part of ADFI_close_file (1775-1830, in_use = 1, no links)
      and of ADFI_open_file (5477-: a slot becomes in use; no buffer is touched).
    AdfIO.v (property C14) has the same routines for ONE file under a fallible operating system; here the OS never
@@ -86,6 +86,12 @@ Definition bufsub (buf : list Z) (off len : Z) : list Z := firstn (Z.to_nat len)
 Inductive res := RUnit | RBytes (l : list Z) | RErr (e : Z).
 
 (* ------------------------------------------------------------------ ADFI_read_file *)
+(* the tail of the small path (since /repo 82c39a0): "the last block of a file is short: what lies beyond the bytes
+   obtained from the file was not read" -- FREAD_ERROR instead of stale buffer contents *)
+Definition serve_rd (s : st) (o len : Z) : res * st :=
+  if (len <? 0) || (o + len >? num_in_rd (c_ s)) then (RErr FREAD_ERROR, s)
+  else (RBytes (bufsub (rd_buf (c_ s)) o len), s).
+
 Definition read_file (s : st) (f b o len : Z) : res * st :=
   match fget s f with
   | None => (RErr ADF_FILE_NOT_OPENED, s)
@@ -99,17 +105,26 @@ Definition read_file (s : st) (f b o len : Z) : res * st :=
         if (num_in_rd c <? BLK) || negb (b =? last_rd_block c) || negb (f =? last_rd_file c) then
           if (b =? last_wr_block c) && (f =? last_wr_file c) then
             (* memcpy(rd_block_buffer, wr_block_buffer, 4096); iret = 4096 *)
-            let c1 := set_rd_id (set_rd_buf c (wr_buf c)) b f BLK in
-            (RBytes (bufsub (rd_buf c1) o len), with_cache s c1)
+            serve_rd (with_cache s (set_rd_id (set_rd_buf c (wr_buf c)) b f BLK)) o len
           else
             let bytes := pread d (b * BLK) BLK in
             let c1 := set_rd_buf c (bufput (rd_buf c) 0 bytes) in     (* the buffer is clobbered even on error *)
             if lenZ bytes <=? 0 then (RErr FREAD_ERROR, with_cache s c1)
-            else
-              let c2 := set_rd_id c1 b f (lenZ bytes) in
-              (RBytes (bufsub (rd_buf c2) o len), with_cache s c2)
-        else (RBytes (bufsub (rd_buf c) o len), s)
+            else serve_rd (with_cache s (set_rd_id c1 b f (lenZ bytes))) o len
+        else serve_rd s o len
   end.
+
+(* EXACTLY when a read of an open file answers FREAD_ERROR, in terms of the state: [block_avail] = the bytes of block b
+   the small path can serve (a current read buffer: its fill count; the block the write buffer holds: all 4096;
+   else what the file has of that block) *)
+Definition block_avail (s : st) (d : disk) (f b : Z) : Z :=
+  let c := c_ s in
+  if (num_in_rd c <? BLK) || negb (b =? last_rd_block c) || negb (f =? last_rd_file c) then
+    if (b =? last_wr_block c) && (f =? last_wr_file c) then BLK else lenZ (pread d (b * BLK) BLK)
+  else num_in_rd c.
+Definition read_fails (s : st) (d : disk) (f b o len : Z) : bool :=
+  if len + o >? BLK then negb (lenZ (pread d (b * BLK + o) len) =? len)
+  else (block_avail s d f b <=? 0) || (len <? 0) || (o + len >? block_avail s d f b).
 
 (* ------------------------------------------------------------------ ADFI_write_file *)
 (* "If the read buffer overlaps the buffer then reset it" *)
